@@ -857,6 +857,12 @@ func (s *Store) Concat(hi, lo *Term) *Term {
 	if hi.IsConst() && hi.Val == 0 {
 		return s.Zext(lo, w)
 	}
+	// concat(x[a:m+1], x[m:b]) = x[a:b]
+	if hi.Op == OExtract && lo.Op == OExtract && hi.Args[0] == lo.Args[0] && hi.B == lo.A+1 {
+		return s.Extract(hi.Args[0], hi.A, lo.B)
+	}
+	// concat(x[a:m+1], x[m:0]) where the low part is the whole of a narrower x handled above; also
+	// concat(hi, zext?) not simplified
 	return s.mk(&Term{Op: OConcat, S: BV(w), Args: []*Term{hi, lo}})
 }
 
